@@ -124,7 +124,9 @@ func newEnv(t *testing.T, run *ev.Run, idx int, name string, cfg func(*config.Bl
 	for _, u := range p.Users[:4] {
 		e.singles = append(e.singles, u.S)
 	}
-	e.multis = []neotest.Signer{multi(1, 1, idx), multi(2, 3, idx), multi(3, 5, idx), multi(5, 7, idx)}
+	e.multis = []neotest.Signer{multi(1, 1, idx), multi(2, 3, idx), multi(3, 5, idx), multi(5, 7, idx),
+		// verification scripts above 252 bytes (3-byte length prefix on the wire) start at 8 keys
+		multi(2, 8, idx), multi(6, 9, idx), multi(3, 12, idx), multi(11, 16, idx), multi(4, 7, idx), multi(15, 29, idx)}
 	e.blocked = p.Users[4].S
 	e.poor = neotest.NewSingleSigner(wallet.NewAccountFromPrivateKey(vchain.DetKey("c07-poor", idx)))
 	var txs []*transaction.Transaction
@@ -385,7 +387,8 @@ func (e *env) onchain(round int) {
 
 // boundary checks that the calculator's fee is exactly the acceptance threshold.
 func (e *env) boundary(round int) {
-	combos := [][]neotest.Signer{{e.singles[0]}, {e.multis[0]}, {e.multis[1]}, {e.multis[2]}, {e.multis[3]}, {e.singles[1], e.multis[1]}, {e.multis[2], e.singles[0], e.multis[1]}, {e.singles[0], e.singles[1], e.singles[2], e.singles[3]}}
+	combos := [][]neotest.Signer{{e.singles[0]}, {e.multis[0]}, {e.multis[1]}, {e.multis[2]}, {e.multis[3]}, {e.singles[1], e.multis[1]}, {e.multis[2], e.singles[0], e.multis[1]}, {e.singles[0], e.singles[1], e.singles[2], e.singles[3]},
+		{e.multis[4]}, {e.multis[5]}, {e.multis[6]}, {e.multis[7]}, {e.multis[8]}, {e.multis[9]}, {e.multis[4+round%6], e.singles[2]}}
 	for ci, cb := range combos {
 		for _, n := range []int{1, 100, 1000, 30000} {
 			var attrs []transaction.Attribute
@@ -576,8 +579,142 @@ func (e *env) proposals(round int) {
 	_ = pooled
 }
 
+// policyRaise: transactions pooled at exactly the calculated fee, then a block
+// raises one price (fee per byte, execution fee factor, Conflicts attribute
+// price) and blocks are proposed from the pool: whatever the refreshed pool
+// still offers must make a block peers accept.
+func (e *env) policyRaise(round int, fpb, eff int64) {
+	p := e.p
+	id := fmt.Sprintf("%s/round%d/proposal-after-fee-policy-raise", e.name, round)
+	if !e.run.Want(id) {
+		return
+	}
+	mp := p.BC.GetMemPool()
+	vub := func(tx *transaction.Transaction) { tx.ValidUntilBlock = p.BC.BlockHeight() + 4 }
+	conflict := []transaction.Attribute{{Type: transaction.ConflictsT, Value: &transaction.Conflicts{Hash: util.Uint256{7, byte(round)}}}}
+	txs := []*transaction.Transaction{
+		e.build([]neotest.Signer{e.singles[0]}, script(1), nil, vub),
+		e.build([]neotest.Signer{e.multis[1+round%3]}, script(100), nil, vub),
+		e.build([]neotest.Signer{e.singles[1]}, script(10), conflict, vub),
+		e.build([]neotest.Signer{e.singles[2], e.multis[4]}, script(1000), nil, vub),
+	}
+	pooled := 0
+	for _, tx := range txs {
+		if t2, err := wire(tx); err == nil && p.BC.PoolTx(t2) == nil {
+			pooled++
+		}
+	}
+	if pooled == 0 {
+		return
+	}
+	e.run.Case(id, true)
+	var raise *transaction.Transaction
+	knob := []string{"fee-per-byte", "exec-fee-factor", "conflicts-attribute-price"}[round%3]
+	switch round % 3 {
+	case 0:
+		raise = p.Call("set-fee-per-byte", []neotest.Signer{p.Val, p.CommitteeSigner()}, p.PolH, "setFeePerByte", fpb+1+int64(e.r.Intn(200)))
+	case 1:
+		raise = p.Call("set-exec-fee-factor", []neotest.Signer{p.Val, p.CommitteeSigner()}, p.PolH, "setExecFeeFactor", eff+1+int64(e.r.Intn(3)))
+	default:
+		raise = p.Call("set-attribute-fee", []neotest.Signer{p.Val, p.CommitteeSigner()}, p.PolH, "setAttributeFee", int64(transaction.ConflictsT), e.conflictsFee+1+int64(e.r.Intn(5000)))
+	}
+	if p.AddBlock(raise) == nil {
+		e.run.Violation("producer-rejected-own-block", id, p.Rejected.Error(), nil)
+		e.broken = true
+		return
+	}
+	e.sync()
+	e.run.Obs("fee_policy_raises_with_exact_fee_transactions_pooled", 1)
+	e.run.Obs("pooled_transactions_left_after_fee_policy_raise", int64(mp.Count()))
+	for n := 0; n < 3 && mp.Count() > 0; n++ {
+		sel := p.BC.ApplyPolicyToTxSet(mp.GetVerifiedTransactions())
+		if len(sel) == 0 {
+			break
+		}
+		blk := p.NewBlock(sel...)
+		raw := vchain.EncodeBlock(blk)
+		e.run.Obs("proposals_after_fee_policy_raise", 1)
+		if err := e.rep.AddRaw(raw); err != nil {
+			e.run.Violation("packed-block-rejected-after-wire-round-trip:pooled-before-raise-of-"+knob, id, fmt.Sprintf("%d txs: %v", len(sel), err), map[string]any{"env": e.name, "block_hex": fmt.Sprintf("%x", raw)})
+			e.broken = true
+			return
+		}
+		if err := p.BC.AddBlock(blk); err != nil {
+			e.viol("packed-block-rejected-by-its-own-node", id, err.Error(), nil)
+			e.broken = true
+			return
+		}
+		p.Raw = append(p.Raw, raw)
+		p.Blocks = append(p.Blocks, blk)
+	}
+}
+
+// balanceDrain: a transaction its payer can just afford is pooled, then a block
+// (with a transaction of the same payer this pool never saw) takes the payer's
+// balance below its pooled fees; blocks proposed from the pool afterwards must
+// still be accepted by peers.
+func (e *env) balanceDrain(round int) {
+	p := e.p
+	id := fmt.Sprintf("%s/round%d/proposal-after-payer-balance-drop", e.name, round)
+	if !e.run.Want(id) {
+		return
+	}
+	mp := p.BC.GetMemPool()
+	sg := e.singles[3-round%2]
+	bal := p.BC.GetUtilityTokenBalance(sg.ScriptHash(), util.Uint160{}).Int64()
+	var have int64
+	for _, tx := range mp.GetVerifiedTransactions() {
+		if tx.Sender() == sg.ScriptHash() {
+			have += tx.SystemFee + tx.NetworkFee
+		}
+	}
+	room := bal - have - 5000_0000
+	if room < 1_0000_0000 {
+		return
+	}
+	tx := e.build([]neotest.Signer{sg}, script(1), nil, func(tx *transaction.Transaction) { tx.ValidUntilBlock = p.BC.BlockHeight() + 4 })
+	// the network fee is not capped: overpay it up to the payer's room
+	fat := e.resign(tx, []neotest.Signer{sg})
+	fat.NetworkFee = room - fat.SystemFee
+	fat = e.resign(fat, []neotest.Signer{sg})
+	t2, err := wire(fat)
+	if err != nil || p.BC.PoolTx(t2) != nil {
+		return
+	}
+	e.run.Case(id, true)
+	drain := p.Call("drain", []neotest.Signer{sg}, p.GasH, "transfer", sg.ScriptHash(), p.Val.ScriptHash(), int64(1_0000_0000), nil)
+	if p.AddBlock(drain) == nil {
+		e.run.Violation("producer-rejected-own-block", id, p.Rejected.Error(), nil)
+		e.broken = true
+		return
+	}
+	e.sync()
+	e.run.Obs("payer_balance_drops_below_pooled_fees", 1)
+	for n := 0; n < 2 && mp.Count() > 0; n++ {
+		sel := p.BC.ApplyPolicyToTxSet(mp.GetVerifiedTransactions())
+		if len(sel) == 0 {
+			break
+		}
+		blk := p.NewBlock(sel...)
+		raw := vchain.EncodeBlock(blk)
+		e.run.Obs("proposals_after_payer_balance_drop", 1)
+		if err := e.rep.AddRaw(raw); err != nil {
+			e.run.Violation("packed-block-rejected-after-wire-round-trip:payer-balance-dropped-below-pooled-fees", id, fmt.Sprintf("%d txs: %v", len(sel), err), map[string]any{"env": e.name, "block_hex": fmt.Sprintf("%x", raw)})
+			e.broken = true
+			return
+		}
+		if err := p.BC.AddBlock(blk); err != nil {
+			e.viol("packed-block-rejected-by-its-own-node", id, err.Error(), nil)
+			e.broken = true
+			return
+		}
+		p.Raw = append(p.Raw, raw)
+		p.Blocks = append(p.Blocks, blk)
+	}
+}
+
 func TestCheck(t *testing.T) {
-	run := ev.Start("C07", "cases: (1) admission verdicts — transactions built valid against the current chain state (1-3 signers, single-sig and m-of-n up to 5-of-7, attributes, script sizes up to the limits) and mutants invalid in exactly one named respect, offered through the wire decoder to PoolTx; (2) history-dependent rules (on chain, named as a conflict by an on-chain transaction of its signer / of a stranger); (3) fee boundary: calculator fee accepted, one unit less rejected, one more accepted, over signer combinations x script sizes x fee-per-byte x exec-fee-factor; (4) proposals: the node's own pool (incl. alternative accepted encodings) packed by ApplyPolicyToTxSet under tight block limits, sealed, serialized, parsed and added on a replica; distinct by (environment, round, case)")
+	run := ev.Start("C07", "cases: (1) admission verdicts — transactions built valid against the current chain state (1-3 signers, single-sig and m-of-n up to 15-of-29 (the invocation script limit of 1024 bytes caps m at 15), attributes, script sizes up to the limits) and mutants invalid in exactly one named respect, offered through the wire decoder to PoolTx; (2) history-dependent rules (on chain, named as a conflict by an on-chain transaction of its signer / of a stranger); (3) fee boundary: calculator fee accepted, one unit less rejected, one more accepted, over signer combinations x script sizes x fee-per-byte x exec-fee-factor; (4) proposals: the node's own pool (incl. alternative accepted encodings) packed by ApplyPolicyToTxSet under tight block limits, sealed, serialized, parsed and added on a replica; distinct by (environment, round, case)")
 	defer run.Finish()
 	run.Assume("expected verdicts are known by construction: every mutant breaks exactly one named rule")
 	run.Assume("fee exactness is claimed only for standard signature / multisignature witnesses, as the property states")
@@ -633,6 +770,14 @@ func TestCheck(t *testing.T) {
 			e.onchain(round)
 			e.boundary(round)
 			e.proposals(round)
+			if e.broken {
+				break
+			}
+			e.policyRaise(round, fpb, eff)
+			if e.broken {
+				break
+			}
+			e.balanceDrain(round)
 			if e.broken {
 				break
 			}
